@@ -394,7 +394,7 @@ func runC16(p *P, r *R) {
 	c16SessionNames(p, r)
 	// R16.10 a session dying while the restart events are sent must not wedge the listener: no mutex is re-acquired
 	// through the shutdown callback while the restart loop holds it, no unbounded wait under a mutex (shared with C11)
-	borrow(p, r, "C11", runC11, map[string]string{"R11.11": "R16.10", "R11.12": "R16.10"}, nil)
+	borrow(p, r, "C11", runC11, map[string]string{"R11.11": "R16.10", "R11.12": "R16.10", "R11.13": "R16.10"}, nil)
 	c16SwapDiscipline(p, r)
 	// R16.5 the hot-restart handlers are nil-safe on sessions without manager / listener (shared with C13 R13.4)
 	borrow(p, r, "C13", runC13, map[string]string{"R13.4": "R16.5"}, func(o Ob) bool { return constructHas(o, "Session.manager", "Session.listener") })
